@@ -14,6 +14,24 @@
 //! Sockets are attributed to a side by inode identity (`/proc/self/fd`) at the step that
 //! created them.
 //!
+//! Beyond the single events and racing pairs:
+//!  * `flapN` (side "N", WebRTC mode): the forwarder blackholes the path until BOTH sides report
+//!    Disconnected, heals it until both report Connected again – N times, driven by the observed
+//!    states only – and then blackholes it for good.  `ice_disconnect_grace` is sized so that all
+//!    N+1 outages begin inside the grace window of the first one, the hard ICE timeout is
+//!    configured far away, and SCTP is told not to give up by itself: the connection must end
+//!    through the documented grace period (bound = threshold + tick + grace + tick + 5 s).  A
+//!    run whose state log does not show that history is a harness error, not evidence.
+//!    (Rtp/Srtp mode has a second copy of the connected-state loop, but rustrtc's ICE runner
+//!    only reports `Disconnected` in WebRTC mode; no network history or public call reaches it.)
+//!  * phase `new`: close / drop / ICE stop land in the same poll as `PeerConnection::new()`,
+//!    before any background task of the connection has run once.
+//!  * every call that waits for the connection's fate (`recv`, `wait_for_connected`,
+//!    `wait_for_gathering_complete`, the data channel's `recv`) is made AGAIN after it has
+//!    given its terminal answer – on closed sides and on sides whose connection ended by
+//!    itself for good (Closed | Failed): recv() is drained (≤ 64 calls) until `None` and then
+//!    called once more.
+//!
 //! ORACLE (per side X, after the last event; the statement is the law):
 //!  * X closed / dropped / stopped ICE itself, or X's peer did so, or the path died, or the
 //!    peer sent SCTP ABORT / SHUTDOWN  ⇒  X's peer-state watch shows Closed | Failed |
@@ -72,7 +90,27 @@ const DTLS_HANDSHAKE_DEADLINE_MS: u64 = 30_000;
 /// rustrtc: ICE keepalive / consent tick (hard-coded 1 s interval in the ICE runner)
 const ICE_TICK_MS: u64 = 1000;
 
-fn rtc_config(mode: &str, phase: &str) -> RtcConfiguration {
+/// Flap scenarios ("flapN": N recoveries inside one grace window).  The consent threshold is
+/// lowered so that an outage is noticed quickly, the grace period is sized so that N complete
+/// outage→recovery→outage cycles fit into it (per cycle and side: ≤ 1 tick until the slower side
+/// has noticed the outage, ≤ 1 tick until the recovery is noticed, threshold + ≤ 1 tick until the
+/// next outage is noticed), and the hard ICE timeout is moved far away so that the only timer
+/// chain that may end the connection is the documented one (`ice_disconnect_grace`: "bounding
+/// how long a dead connection lingers").
+const FLAP_THRESHOLD_MS: u64 = 1500;
+const FLAP_ICE_CONN_TIMEOUT_MS: u64 = 600_000;
+fn flap_grace_ms(n: u64) -> u64 {
+    n * (FLAP_THRESHOLD_MS + 3 * ICE_TICK_MS) + 1500
+}
+/// number of recoveries of the scenario's flap event (0 = no flap event)
+fn flap_n(sc: &Value) -> u64 {
+    sc["events"]
+        .as_array()
+        .and_then(|a| a.iter().filter_map(|e| e["ev"].as_str()).find_map(|e| e.strip_prefix("flap")).and_then(|n| n.parse().ok()))
+        .unwrap_or(0)
+}
+
+fn rtc_config(mode: &str, phase: &str, flaps: u64) -> RtcConfiguration {
     let mut c = RtcConfiguration::default();
     c.transport_mode = match mode {
         "srtp" => TransportMode::Srtp,
@@ -95,6 +133,15 @@ fn rtc_config(mode: &str, phase: &str) -> RtcConfiguration {
     if phase == "sender_blocked" {
         c.sctp_max_buffered_amount = 16 * 1024;
     }
+    if flaps > 0 {
+        c.ice_disconnect_threshold = Duration::from_millis(FLAP_THRESHOLD_MS);
+        c.ice_disconnect_grace = Duration::from_millis(flap_grace_ms(flaps));
+        c.ice_connection_timeout = Duration::from_millis(FLAP_ICE_CONN_TIMEOUT_MS);
+        // the SCTP association must not give up by itself while the path flaps: the layer under
+        // test is the ICE-disconnect handling of the connected-state loop
+        c.sctp_max_association_retransmits = 200;
+        c.sctp_max_heartbeat_failures = 200;
+    }
     c
 }
 
@@ -102,7 +149,13 @@ fn rtc_config(mode: &str, phase: &str) -> RtcConfiguration {
 fn bound_ms(sc: &Value) -> u64 {
     let phase = sc["phase"].as_str().unwrap_or("");
     let has_shutdown = sc["events"].as_array().map(|a| a.iter().any(|e| e["ev"] == "shutdown")).unwrap_or(false);
-    let chain = if has_shutdown && phase != "dtls_handshaking" {
+    let flaps = flap_n(sc);
+    let chain = if flaps > 0 {
+        // final outage: noticed after the consent threshold (+ a tick), then the documented
+        // `ice_disconnect_grace` runs out (+ a tick of slack); the hard ICE timeout is configured
+        // far away and never needed
+        FLAP_THRESHOLD_MS + ICE_TICK_MS + flap_grace_ms(flaps) + ICE_TICK_MS
+    } else if has_shutdown && phase != "dtls_handshaking" {
         // after SHUTDOWN / SHUTDOWN-ACK the receiver only learns through heartbeat failures,
         // which rustrtc suppresses for a hard-coded 30 s after the last SACK (sctp.rs
         // send_heartbeat), then heartbeat_interval × max_association_retransmits
@@ -135,9 +188,14 @@ const WEBRTC_PHASES: [&str; 10] = [
     "sender_blocked",
 ];
 const DIRECT_PHASES: [&str; 4] = ["created", "offer_made", "connected", "media_flowing"];
+/// phases in which the connected-state loop (ICE-disconnect grace handling) is running.
+/// (Rtp/Srtp mode has its own copy of that loop, but rustrtc's ICE runner only ever reports
+/// `Disconnected` in WebRTC mode, so no network history reaches it there.)
+const FLAP_PHASES: [&str; 4] = ["channels_open", "media_flowing", "renegotiating", "sender_blocked"];
+const FLAP_EVENTS: [&str; 3] = ["flap1", "flap2", "flap3"];
 
 fn phase_has_peer(phase: &str) -> bool {
-    !matches!(phase, "created" | "offer_made" | "gathering")
+    !matches!(phase, "new" | "created" | "offer_made" | "gathering")
 }
 fn phase_has_sctp(phase: &str) -> bool {
     matches!(phase, "channels_open" | "media_flowing" | "renegotiating" | "sender_blocked")
@@ -231,6 +289,13 @@ fn enumerate(tier: Tier, seed: u64) -> Vec<Value> {
             for (mode, ph, ev, side) in direct.into_iter().take(8) {
                 out.push(mk(mode, ph, &[(ev, side)], "none"));
             }
+            // path flaps inside the ICE-disconnect grace window: the plain case always, one
+            // seed-rotated (phase, number of recoveries) on top
+            let mut frng = Rng::new(seed).fork(1703);
+            out.push(mk("webrtc", "channels_open", &[("flap1", "N")], chan(&mut frng)));
+            let ph = *frng.pick(&FLAP_PHASES[1..]);
+            let ev = if frng.bool() { "flap1" } else { "flap2" };
+            out.push(mk("webrtc", ph, &[(ev, "N")], chan(&mut frng)));
         }
         Tier::Thorough => {
             for ph in WEBRTC_PHASES {
@@ -258,6 +323,24 @@ fn enumerate(tier: Tier, seed: u64) -> Vec<Value> {
                         out.push(mk(mode, ph, &[(ev, side)], "none"));
                     }
                 }
+            }
+            // phase "new": the event lands in the same poll as `PeerConnection::new()`, i.e. before
+            // the runtime has run any of the connection's background tasks even once
+            for mode in ["webrtc", "srtp", "rtp"] {
+                for ev in ["close", "drop", "ice_stop"] {
+                    if mode == "webrtc" || ev != "ice_stop" {
+                        out.push(mk(mode, "new", &[(ev, "A")], if mode == "webrtc" { chan(&mut rng) } else { "none" }));
+                    }
+                }
+            }
+            for ph in FLAP_PHASES {
+                for ev in FLAP_EVENTS {
+                    out.push(mk("webrtc", ph, &[(ev, "N")], chan(&mut rng)));
+                }
+            }
+            // a flapped (possibly stuck) connection must still be closable / droppable
+            for second in [("close", "A"), ("close", "B"), ("drop", "B"), ("ice_stop", "A")] {
+                out.push(mk("webrtc", "channels_open", &[("flap1", "N"), second], chan(&mut rng)));
             }
         }
     }
@@ -320,7 +403,12 @@ pub fn run(args: &Args) -> i32 {
             }
         }
     } else {
-        enumerate(args.tier, args.seed)
+        let all = enumerate(args.tier, args.seed);
+        // `--only <substring of mode/phase/events>`: restrict a run (debugging, fix validation)
+        match args.opt("--only") {
+            Some(f) => all.into_iter().filter(|sc| scenario_label(sc).contains(&f)).collect(),
+            None => all,
+        }
     };
     let replay_mode = args.replay.is_some();
     let total = scenarios.len();
@@ -379,8 +467,9 @@ pub fn run(args: &Args) -> i32 {
         let sc = &scenarios[i];
         digest(&mut report, sc, &r);
     }
-    let min = if replay_mode { 1 } else { (total as u64 * 6) / 10 };
-    report.finish(min, if replay_mode { 0 } else { (total as u64) / 2 })
+    let restricted = replay_mode || args.opt("--only").is_some();
+    let min = if restricted { 1 } else { (total as u64 * 6) / 10 };
+    report.finish(min, if restricted { 0 } else { (total as u64) / 2 })
 }
 
 fn run_child(exe: &std::path::Path, sc: &Value) -> Value {
@@ -481,7 +570,7 @@ fn digest(report: &mut Report, sc: &Value, r: &Value) {
         for f in findings {
             let key = f["key"].as_str().unwrap_or("?").to_string();
             let what = f["what"].as_str().unwrap_or("").to_string();
-            let wit = json!({"clauses": r["clauses"], "census": r["census"], "detail": f["detail"], "wire": r["wire"]});
+            let wit = json!({"clauses": r["clauses"], "census": r["census"], "detail": f["detail"], "wire": r["wire"], "states": r["states"], "events": r["events"]});
             if first {
                 report.record(sc, h, Verdict::violated(key, what, wit));
                 first = false;
@@ -581,6 +670,9 @@ struct Side {
     had_remote: bool,
     source: Option<Arc<SampleStreamSource>>,
     last_remote: Option<SessionDescription>,
+    /// every peer-state value the watch channel showed, with the time it was seen
+    state_log: Arc<Mutex<Vec<(u64, PeerConnectionState)>>>,
+    state_logger: Option<JoinHandle<()>>,
 }
 
 #[derive(Clone)]
@@ -617,6 +709,19 @@ impl Side {
             PeerConnectionState::Closed | PeerConnectionState::Failed | PeerConnectionState::Disconnected
         )
     }
+    /// times at which the state log shows a transition INTO `st`
+    fn entered(&self, st: PeerConnectionState) -> Vec<u64> {
+        let l = self.state_log.lock();
+        let mut out = vec![];
+        let mut prev: Option<PeerConnectionState> = None;
+        for (t, v) in l.iter() {
+            if *v == st && prev != Some(st) {
+                out.push(*t);
+            }
+            prev = Some(*v);
+        }
+        out
+    }
     fn watch_dc(&mut self, rt_h: &Handle, clock: &Clock, dc: Arc<DataChannel>) {
         let log = Arc::new(Mutex::new(Vec::new()));
         let (l2, d2, c2) = (log.clone(), dc.clone(), clock.clone());
@@ -628,6 +733,10 @@ impl Side {
                     Some(DataChannelEvent::Close) => l2.lock().push((c2.ms(), "Close".to_string())),
                     None => {
                         l2.lock().push((c2.ms(), "EOS".to_string()));
+                        // an application that calls recv() once more after the end of the
+                        // stream must get an answer again ("subsequent calls return")
+                        let again = d2.recv().await;
+                        l2.lock().push((c2.ms(), if again.is_none() { "EOS2".to_string() } else { "EOS2:Some".to_string() }));
                         break;
                     }
                 }
@@ -667,20 +776,47 @@ async fn new_side(
     rt: Handle,
     clock: &Clock,
     cfg: RtcConfiguration,
+    immediate: Option<String>,
 ) -> Result<Side, String> {
     let live = Arc::new(AtomicUsize::new(0));
-    let pc = spawn_on(&rt, &live, async move { PeerConnection::new(cfg) })
-        .await
-        .map_err(|e| format!("PeerConnection::new: {e}"))?;
+    // `immediate` (phase "new"): the event is applied in the same poll as the constructor, so
+    // none of the tasks the constructor spawned has run yet when it lands
+    let (pc, state_rx, reason_rx, ice_rx, sig_rx) = spawn_on(&rt, &live, async move {
+        let pc = PeerConnection::new(cfg);
+        let subs = (
+            pc.subscribe_peer_state(),
+            pc.subscribe_disconnect_reason(),
+            pc.subscribe_ice_connection_state(),
+            pc.subscribe_signaling_state(),
+        );
+        let pc = match immediate.as_deref() {
+            Some("close") => {
+                pc.close();
+                Some(pc)
+            }
+            Some("ice_stop") => {
+                pc.ice_transport().stop();
+                Some(pc)
+            }
+            Some("drop") => {
+                drop(pc);
+                None
+            }
+            _ => Some(pc),
+        };
+        (pc, subs.0, subs.1, subs.2, subs.3)
+    })
+    .await
+    .map_err(|e| format!("PeerConnection::new: {e}"))?;
     let mut s = Side {
         name,
         rt,
         live,
-        state_rx: pc.subscribe_peer_state(),
-        reason_rx: pc.subscribe_disconnect_reason(),
-        ice_rx: pc.subscribe_ice_connection_state(),
-        sig_rx: pc.subscribe_signaling_state(),
-        pc: Some(pc),
+        state_rx,
+        reason_rx,
+        ice_rx,
+        sig_rx,
+        pc,
         dcs: vec![],
         dc_rx: None,
         socks: BTreeSet::new(),
@@ -690,7 +826,22 @@ async fn new_side(
         had_remote: false,
         source: None,
         last_remote: None,
+        state_log: Arc::new(Mutex::new(Vec::new())),
+        state_logger: None,
     };
+    {
+        // runs on the harness runtime (new_side is awaited from there): not part of the census
+        let (mut rx, log, c2) = (s.state_rx.clone(), s.state_log.clone(), clock.clone());
+        s.state_logger = Some(tokio::spawn(async move {
+            loop {
+                let v = *rx.borrow_and_update();
+                log.lock().push((c2.ms(), v));
+                if rx.changed().await.is_err() {
+                    break;
+                }
+            }
+        }));
+    }
     // event pump = the application's pending `recv()`; in-band channels arrive through it
     let (tx, rx) = tokio::sync::mpsc::unbounded_channel();
     s.dc_rx = Some(rx);
@@ -976,6 +1127,7 @@ async fn scenario(sc: &Value, rt_h: Handle, rt_a: Handle, rt_b: Handle) -> Resul
     let webrtc = mode == "webrtc";
     let media = phase == "media_flowing" || !webrtc;
     let bound = bound_ms(sc);
+    let flaps = flap_n(sc);
     let panics0 = panic_count();
     let mut seen: Vec<(String, String)> = vec![];
     let mut obs = serde_json::Map::new();
@@ -985,9 +1137,10 @@ async fn scenario(sc: &Value, rt_h: Handle, rt_a: Handle, rt_b: Handle) -> Resul
     let base = socket_inodes();
 
     // ---------------- side A (offerer)
-    let mut a = new_side("A", rt_a.clone(), &clock, rtc_config(&mode, &phase)).await?;
+    let immediate = if phase == "new" { sc["events"][0]["ev"].as_str().map(|s| s.to_string()) } else { None };
+    let mut a = new_side("A", rt_a.clone(), &clock, rtc_config(&mode, &phase, flaps), immediate).await?;
     let mut b: Option<Side> = None;
-    {
+    if phase != "new" {
         let pc = a.pc.clone().ok_or("no handle")?;
         if webrtc {
             let dc = a
@@ -1010,7 +1163,7 @@ async fn scenario(sc: &Value, rt_h: Handle, rt_a: Handle, rt_b: Handle) -> Resul
     let frames_sent = Arc::new(AtomicU64::new(0));
 
     // ---------------- drive to the phase
-    let mut reached = phase == "created";
+    let mut reached = phase == "created" || phase == "new";
     if phase == "gathering" {
         let pc = a.pc.clone().ok_or("no handle")?;
         let r = a.run(async move { pc.create_offer().await.map(|_| ()) }).await?;
@@ -1020,14 +1173,14 @@ async fn scenario(sc: &Value, rt_h: Handle, rt_a: Handle, rt_b: Handle) -> Resul
             "done".to_string()
         });
         reached = true; // the event lands right behind the start of gathering
-    } else if phase != "created" {
+    } else if phase != "created" && phase != "new" {
         let offer = offer_with_candidates(&a).await?;
         a.socks = socket_inodes().difference(&base).cloned().collect();
         if phase == "offer_made" {
             reached = *a.sig_rx.borrow() == SignalingState::HaveLocalOffer;
         } else {
             // ---------------- side B (answerer)
-            let mut bs = new_side("B", rt_b.clone(), &clock, rtc_config(&mode, &phase)).await?;
+            let mut bs = new_side("B", rt_b.clone(), &clock, rtc_config(&mode, &phase, flaps), None).await?;
             if webrtc && negotiated {
                 let pc = bs.pc.clone().ok_or("no handle")?;
                 let dc = bs
@@ -1249,6 +1402,8 @@ async fn scenario(sc: &Value, rt_h: Handle, rt_a: Handle, rt_b: Handle) -> Resul
     let events = sc["events"].as_array().cloned().unwrap_or_default();
     let gap = sc["gap_ms"].as_u64().unwrap_or(100);
     let mut applied = vec![];
+    let mut flap_final_at: Option<u64> = None;
+    let mut reason_at_flap_end: Vec<(&'static str, bool)> = vec![];
     for (i, e) in events.iter().enumerate() {
         if i > 0 {
             tokio::time::sleep(Duration::from_millis(gap)).await;
@@ -1262,6 +1417,15 @@ async fn scenario(sc: &Value, rt_h: Handle, rt_a: Handle, rt_b: Handle) -> Resul
             _ => (None, None),
         };
         match ev {
+            "close" | "drop" | "ice_stop" if i == 0 && phase == "new" => {
+                // already applied inside new_side(); only the bookkeeping is left
+                let s = subj.ok_or("event needs a side")?;
+                s.local = Some(match ev {
+                    "close" => "close",
+                    "drop" => "drop",
+                    _ => "ice_stop",
+                });
+            }
             "close" | "drop" | "ice_stop" => {
                 let s = subj.ok_or("event needs a side")?;
                 match ev {
@@ -1328,6 +1492,37 @@ async fn scenario(sc: &Value, rt_h: Handle, rt_a: Handle, rt_b: Handle) -> Resul
                 if let Some(bs) = b.as_mut() {
                     if bs.silenced.is_none() {
                         bs.silenced = Some(ev.to_string());
+                    }
+                }
+            }
+            f if f.starts_with("flap") => {
+                // N times: outage until BOTH sides report Disconnected, recovery until both
+                // report Connected again; then the final, permanent outage.  Phases are driven
+                // by the observed states only.
+                let n: u64 = f[4..].parse().map_err(|_| format!("bad flap event {f}"))?;
+                let nwr = nw.as_ref().ok_or("no natwire")?;
+                let bs = b.as_ref().ok_or("flap needs a peer")?;
+                let both = |st: PeerConnectionState| a.state() == st && bs.state() == st;
+                for k in 0..n {
+                    nwr.st.lock().blackhole = true;
+                    let down = wait_until(FLAP_THRESHOLD_MS + 2 * ICE_TICK_MS + 8000, || both(PeerConnectionState::Disconnected)).await;
+                    nwr.st.lock().blackhole = false;
+                    let up = down && wait_until(10_000, || both(PeerConnectionState::Connected)).await;
+                    if !up {
+                        return Ok(json!({"status": "harness_error", "reason": format!(
+                            "flap cycle {k}: {} not observed (A={:?}/{:?} B={:?}/{:?})", if down { "recovery" } else { "outage" },
+                            a.state(), a.reason(), bs.state(), bs.reason())}));
+                    }
+                }
+                nwr.st.lock().blackhole = true;
+                flap_final_at = Some(clock.ms());
+                reason_at_flap_end = std::iter::once(&a).chain(b.iter()).map(|s| (s.name, s.reason().is_some())).collect();
+                if a.silenced.is_none() {
+                    a.silenced = Some("flap".to_string());
+                }
+                if let Some(bs) = b.as_mut() {
+                    if bs.silenced.is_none() {
+                        bs.silenced = Some("flap".to_string());
                     }
                 }
             }
@@ -1462,34 +1657,109 @@ async fn scenario(sc: &Value, rt_h: Handle, rt_a: Handle, rt_b: Handle) -> Resul
         }
     }
 
-    // ---------------- stage 1b: battery of API calls on closed handles + second close()
+    // flap scenarios: was the history really "N recoveries, every outage inside ONE grace window,
+    // nothing reported yet when the final outage began"?  (decided on the observed state log)
+    let mut flap_problem: Option<String> = None;
+    if let Some(t_fin) = flap_final_at {
+        let grace = flap_grace_ms(flaps);
+        // (a side that a later event of the scenario closed or dropped does not live to see the
+        // final outage; the history is judged on the sides that were only cut off)
+        for s in std::iter::once(&a).chain(b.iter()).filter(|s| s.local.is_none()) {
+            let d = s.entered(PeerConnectionState::Disconnected);
+            let c = s.entered(PeerConnectionState::Connected);
+            let had_reason = reason_at_flap_end.iter().any(|r| r.0 == s.name && r.1);
+            let final_outage: Vec<u64> = d.iter().cloned().filter(|t| *t >= t_fin).collect();
+            let ok = d.len() as u64 >= flaps + 1
+                && !final_outage.is_empty()
+                && !had_reason
+                && final_outage[0].saturating_sub(d[0]) < grace;
+            seen.push(("flap_history".into(), format!("outages={},recoveries={},inside_grace={}", d.len().min(5), c.len().saturating_sub(1).min(5), ok)));
+            if ok {
+                obs.insert("flap_outages_inside_grace".into(), json!(obs.get("flap_outages_inside_grace").and_then(|v| v.as_u64()).unwrap_or(0) + d.len() as u64));
+            } else if flap_problem.is_none() {
+                flap_problem = Some(format!(
+                    "side {}: outages at {:?} ms, recoveries at {:?} ms, final outage began {} ms, grace {} ms, reason already set at the final outage: {}",
+                    s.name, d, c, t_fin, grace, had_reason
+                ));
+            }
+        }
+    }
+
+    // ---------------- stage 1b: battery of API calls on finished handles + second close()
+    // Side closed by the application: the full battery.  Side whose connection ended by itself
+    // and for good in rustrtc's own terms (Closed | Failed – e.g. ICE stopped / failed, SCTP
+    // gone) while the application still holds the handle: the calls that wait for the
+    // connection's fate.  Every such call is made AGAIN after it has given its terminal answer
+    // (the `while let Some(ev) = pc.recv().await` pump that calls once more; a second
+    // wait_for_connected): "subsequent API calls return".
     let t_b0 = clock.ms();
     for s in std::iter::once(&mut a).chain(b.iter_mut()) {
-        if s.pc.is_none() || s.local != Some("close") {
+        if s.pc.is_none() {
             continue;
         }
-        let id = s.dcs.first().map(|d| d.dc.id).unwrap_or(0);
-        let remote = s.last_remote.clone();
-        s.spawn_pending(&clock, "after:send_data", move |pc| async move { format!("{:?}", pc.send_data(id, b"x").await.is_ok()) });
-        s.spawn_pending(&clock, "after:create_offer", |pc| async move { format!("{:?}", pc.create_offer().await.is_ok()) });
-        if let Some(r) = remote {
-            s.spawn_pending(&clock, "after:set_remote_description", move |pc| async move {
-                format!("{:?}", pc.set_remote_description(r).await.is_ok())
-            });
+        let closed_by_app = s.local == Some("close");
+        let fin = matches!(s.state(), PeerConnectionState::Closed | PeerConnectionState::Failed);
+        if !closed_by_app && !fin {
+            continue;
         }
-        s.spawn_pending(&clock, "after:get_stats", |pc| async move { format!("{:?}", pc.get_stats().await.is_ok()) });
-        s.spawn_pending(&clock, "after:wait_for_connected", |pc| async move { format!("{:?}", pc.wait_for_connected().await.is_ok()) });
+        let first_new = s.pending.len();
+        if closed_by_app {
+            let id = s.dcs.first().map(|d| d.dc.id).unwrap_or(0);
+            let remote = s.last_remote.clone();
+            s.spawn_pending(&clock, "after:send_data", move |pc| async move { format!("{:?}", pc.send_data(id, b"x").await.is_ok()) });
+            s.spawn_pending(&clock, "after:create_offer", |pc| async move { format!("{:?}", pc.create_offer().await.is_ok()) });
+            if let Some(r) = remote {
+                s.spawn_pending(&clock, "after:set_remote_description", move |pc| async move {
+                    format!("{:?}", pc.set_remote_description(r).await.is_ok())
+                });
+            }
+            s.spawn_pending(&clock, "after:get_stats", |pc| async move { format!("{:?}", pc.get_stats().await.is_ok()) });
+        }
+        s.spawn_pending(&clock, "after:wait_for_connected", |pc| async move {
+            let r1 = pc.wait_for_connected().await.is_ok();
+            let r2 = pc.wait_for_connected().await.is_ok();
+            format!("{r1:?},{r2:?}")
+        });
         s.spawn_pending(&clock, "after:wait_for_gathering_complete", |pc| async move {
             pc.wait_for_gathering_complete().await;
-            "done".to_string()
+            pc.wait_for_gathering_complete().await;
+            "done,done".to_string()
         });
-        for p in s.pending.iter().filter(|p| p.name.starts_with("after:")) {
+        // recv(): drain whatever is queued (bounded), then call once more after the first None.
+        // Only when the application's own pump has ended – recv() serialises its callers, so a
+        // pump that is still parked (reported as hang:recv where that is a defect) would block
+        // this call for a reason that is not its own.
+        let pump_done = s.pending.iter().find(|p| p.name == "recv").map(|p| p.done.lock().is_some()).unwrap_or(false);
+        if pump_done {
+            s.spawn_pending(&clock, "after:recv", |pc| async move {
+                let (mut calls, mut nones) = (0u32, 0u32);
+                while calls < 64 && nones < 2 {
+                    calls += 1;
+                    if pc.recv().await.is_none() {
+                        nones += 1;
+                    }
+                }
+                format!("calls={calls},nones={nones}")
+            });
+            obs.insert("recv_called_again_after_end".into(), json!(obs.get("recv_called_again_after_end").and_then(|v| v.as_u64()).unwrap_or(0) + 1));
+        }
+        for p in s.pending[first_new..].iter() {
             clauses.push(Clause { side: s.name, tag: format!("hang:{}", p.name), met_at: None, required: true, detail: Value::Null });
         }
-        // closing twice is harmless: state stays terminal, nothing panics (checked at the end)
-        let pc = s.pc.clone().ok_or("no handle")?;
-        s.run(async move { pc.close() }).await?;
-        obs.insert("double_close".into(), json!(obs.get("double_close").and_then(|v| v.as_u64()).unwrap_or(0) + 1));
+        // a data channel whose event stream has ended is asked again by its collector
+        for (i, d) in s.dcs.iter().enumerate() {
+            if d.log.lock().iter().any(|e| e.1 == "EOS") {
+                clauses.push(Clause { side: s.name, tag: format!("hang:after:dc_recv:{i}"), met_at: None, required: true, detail: Value::Null });
+            }
+        }
+        if closed_by_app {
+            // closing twice is harmless: state stays terminal, nothing panics (checked at the end)
+            let pc = s.pc.clone().ok_or("no handle")?;
+            s.run(async move { pc.close() }).await?;
+            obs.insert("double_close".into(), json!(obs.get("double_close").and_then(|v| v.as_u64()).unwrap_or(0) + 1));
+        } else {
+            obs.insert("battery_on_self_ended_side".into(), json!(obs.get("battery_on_self_ended_side").and_then(|v| v.as_u64()).unwrap_or(0) + 1));
+        }
     }
     loop {
         let t = clock.ms().saturating_sub(t_b0);
@@ -1500,7 +1770,13 @@ async fn scenario(sc: &Value, rt_h: Handle, rt_a: Handle, rt_b: Handle) -> Resul
             }
             let s: &Side = if c.side == "A" { &a } else { b.as_ref().unwrap_or(&a) };
             let n = c.tag.trim_start_matches("hang:");
-            if s.pending.iter().find(|p| p.name == n).map(|p| p.done.lock().is_some()).unwrap_or(true) {
+            let done = if let Some(i) = n.strip_prefix("after:dc_recv:") {
+                let i: usize = i.parse().unwrap_or(0);
+                s.dcs.get(i).map(|d| d.log.lock().iter().any(|e| e.1.starts_with("EOS2"))).unwrap_or(true)
+            } else {
+                s.pending.iter().find(|p| p.name == n).map(|p| p.done.lock().is_some()).unwrap_or(true)
+            };
+            if done {
                 c.met_at = Some(t);
             } else {
                 all = false;
@@ -1510,6 +1786,14 @@ async fn scenario(sc: &Value, rt_h: Handle, rt_a: Handle, rt_b: Handle) -> Resul
             break;
         }
         tokio::time::sleep(Duration::from_millis(50)).await;
+    }
+    // what the repeated calls answered (witness / evidence)
+    for s in std::iter::once(&a).chain(b.iter()) {
+        for p in s.pending.iter().filter(|p| p.name == "after:recv" || p.name == "after:wait_for_connected") {
+            if let Some((_, r)) = p.done.lock().clone() {
+                seen.push(("repeat_call_answer".into(), format!("{}:{}", p.name, r)));
+            }
+        }
     }
     let mut still_terminal = true;
     for s in std::iter::once(&a).chain(b.iter()) {
@@ -1572,6 +1856,14 @@ async fn scenario(sc: &Value, rt_h: Handle, rt_a: Handle, rt_b: Handle) -> Resul
             chan_logs.insert(format!("{}{}", s.name, i), json!(l));
             d.collector.abort();
         }
+    }
+    let mut state_logs = serde_json::Map::new();
+    for s in std::iter::once(&mut a).chain(b.iter_mut()) {
+        if let Some(h) = s.state_logger.take() {
+            h.abort();
+        }
+        let l: Vec<String> = s.state_log.lock().iter().map(|e| format!("{:?}@{}", e.1, e.0)).collect();
+        state_logs.insert(s.name.to_string(), json!(l));
     }
     let panics: Vec<String> = if panic_count() > panics0 {
         take_panics().iter().map(|p| format!("{} ({})", norm_location(&p.location), p.message)).collect()
@@ -1644,7 +1936,9 @@ async fn scenario(sc: &Value, rt_h: Handle, rt_a: Handle, rt_b: Handle) -> Resul
             (Some(_), _) => ("local", evl.clone()),
             (None, Some(x)) if single => ("peer", x.clone()),
             (None, Some(_)) => ("peer", evl.clone()),
-            _ => ("?", evl.clone()),
+            // neither closed nor cut off: the side that injected the SCTP ABORT / SHUTDOWN and
+            // whose own connection ended for good in consequence (only its repeated calls are judged)
+            _ => ("injector", evl.clone()),
         };
         let role = if s.name == "A" { "offerer" } else { "answerer" };
         let ctx = format!("event={ev},phase={phase},mode={mode},observer={observer}");
@@ -1670,7 +1964,14 @@ async fn scenario(sc: &Value, rt_h: Handle, rt_a: Handle, rt_b: Handle) -> Resul
         }
         for h in &hang {
             // `recv()` never returning is independent of phase and event: one key per final state
-            let key = if h == "recv" { format!("api=recv,pending_at={state1},hang") } else { format!("{ctx},hang={h}") };
+            // (likewise a recv() CALLED after the end: one key per state it was called in)
+            let key = if h == "recv" {
+                format!("api=recv,pending_at={state1},hang")
+            } else if h == "after:recv" {
+                format!("api=recv,called_at={state1},hang=after:recv")
+            } else {
+                format!("{ctx},hang={h}")
+            };
             findings.push(json!({"key": key, "what": format!("API call {h} never returned; {tail}"), "detail": detail}));
         }
         if reverted {
@@ -1713,6 +2014,12 @@ async fn scenario(sc: &Value, rt_h: Handle, rt_a: Handle, rt_b: Handle) -> Resul
         }));
     }
 
+    if let Some(why) = flap_problem {
+        if findings.is_empty() {
+            // the oracle held, but not on the history this scenario is about: not evidence
+            return Ok(json!({"status": "harness_error", "reason": format!("flap history not achieved: {why}")}));
+        }
+    }
     obs.insert("clauses_checked".into(), json!(clauses.iter().filter(|c| c.required).count()));
     obs.insert("clauses_met_in_bound".into(), json!(clauses.iter().filter(|c| c.required && c.met_at.map(|t| t <= bound).unwrap_or(false)).count()));
     obs.insert("api_calls_returned".into(), json!(clauses.iter().filter(|c| c.tag.starts_with("hang:") && c.required && c.met_at.is_some()).count()));
@@ -1732,5 +2039,6 @@ async fn scenario(sc: &Value, rt_h: Handle, rt_a: Handle, rt_b: Handle) -> Resul
         "wire": wire,
         "events": applied,
         "channels": Value::Object(chan_logs),
+        "states": Value::Object(state_logs),
     }))
 }
